@@ -419,7 +419,11 @@ private:
             else { std::string g = wellGroup(); for (auto& gp : M->groups) if (gp.first == g) gp.second = parent; s << "GRUPTREE\n " << q(g) << " " << q(parent) << " /\n/\n"; }
             add(st, "GRUPTREE", s.str()); return; }
         case 9: { static const char* m[] = {"NONE", "ORAT", "WRAT", "GRAT", "LRAT", "FLD"}; std::string mode = m[rng.below(6)]; s << "GCONPROD\n " << q(anyGroup(mode != "FLD")) << " '" << mode << "' " << rate() << " " << rate() << " " << rate() << " " << rate() << " '" << (rng.chance(0.5) ? "RATE" : "NONE") << "' " << (rng.chance(0.5) ? "'YES'" : "'NO'") << " /\n/\n"; add(st, "GCONPROD", s.str()); return; }
-        case 10: { static const char* m[] = {"NONE", "RATE", "RESV", "REIN", "VREP"}; s << "GCONINJE\n " << q(anyGroup(true)) << " '" << (rng.chance(0.6) ? "WATER" : "GAS") << "' '" << m[rng.below(5)] << "' " << rate() << " " << rate() << " " << frac() << " " << frac() << " /\n/\n"; add(st, "GCONINJE", s.str()); return; }
+        case 10: { static const char* m[] = {"NONE", "RATE", "RESV", "REIN", "VREP"}; const int md = (int)rng.below(5);
+            // items 4-7 (surface rate, reservoir rate, re-injection fraction, voidage fraction): the one the mode needs is given, each of
+            // the others is left out in 40 % of the records (which limits are active is part of the group's control set)
+            auto it = [&](int need, const std::string& v) { return (md == need || (md == 0 && need == 1) || !rng.chance(0.4)) ? v : std::string("1*"); };   // (mode NONE keeps its surface rate limit: a record without any content is not generated)
+            s << "GCONINJE\n " << q(anyGroup(true)) << " '" << (rng.chance(0.6) ? "WATER" : "GAS") << "' '" << m[md] << "' " << it(1, rate()) << " " << it(2, rate()) << " " << it(3, frac()) << " " << it(4, frac()) << " /\n/\n"; add(st, "GCONINJE", s.str()); return; }
         case 11: { if (!w) return; s << "WTEST\n " << q(w->name) << " " << fmtd(1 + rng.below(30)) << " '" << (rng.chance(0.5) ? "P" : "PE") << "' " << (rng.chance(0.5) ? "1*" : "3") << " /\n/\n"; add(st, "WTEST", s.str()); return; }
         case 12: { WellM* p = anyProducer(); if (!p) return; s << "WECON\n " << q(p->name) << " " << fmtd(rng.below(20)) << " 1* " << frac() << " 2* '" << (rng.chance(0.5) ? "CON" : "WELL") << "' /\n/\n"; add(st, "WECON", s.str()); return; }
         case 13: { if (!w) return; std::string l = "*L" + std::to_string(1 + rng.below(3)); bool exists = std::find(M->wlists.begin(), M->wlists.end(), l) != M->wlists.end(); std::string op = exists ? (rng.chance(0.5) ? "ADD" : (rng.chance(0.5) ? "DEL" : "MOV")) : "NEW"; if (!exists) M->wlists.push_back(l); s << "WLIST\n " << q(l) << " '" << op << "' " << q(w->name); WellM* w2 = anyWell(); if (w2 != w && rng.chance(0.5)) s << " " << q(w2->name); s << " /\n/\n"; add(st, "WLIST", s.str()); return; }
